@@ -22,11 +22,16 @@ MANIFEST = {
     "text": "Theorems over every input JSON value and every fuel about the schema interpreter model (Model/Schema.v: "
             "clean per property kind, _STIXBase.__init__, parse dispatch, serialization) for an ARBITRARY class table "
             "under a boolean side condition (world_refines) that the kernel evaluates on the tables regenerated from "
-            "/repo; per-kind soundness lemmas + object-level lemma; defect variants with refuted witnesses.",
+            "/repo; per-kind soundness lemmas + object-level lemma + co-constraint soundness + induction over the construct / "
+            "parse / parse_observable knot; defect variants with refuted witnesses. strict_sound_partial_wide covers 115 of "
+            "the 123 generated classes (kernel-computed list lib_covered2, written to the evidence on every run); NOT covered: "
+            "Indicator, ObservedData, MarkingDefinition, Bundle of both versions (pattern validator oracle, observable "
+            "containers, marking wrapping, bundle members), for which the oracle + correspondence carry the property.",
     "design_ref": "DESIGN.md 6/C02, Appendix A.7",
     "note": "Trusted: Coq kernel + vm_compute, tr_tables translator (live classes; fail-closed), the frozen specification "
             "tables /verif/spec (audited/seeded), Spec/StixValid.v, the stix2patterns validator as pattern oracle. "
-            "Partial theorem: the set of proved property kinds is the explicit predicate kind_proved in Props/C02.v.",
+            "Partial theorem: restricted by two explicit boolean predicates -- req_scope (no custom_properties / "
+            "extension-definition / toplevel-property-extension marker in the input) and class_proved2 (covered classes).",
     "technique": "Coq proof over a hand model + generated tables; kernel-evaluated refinement; correspondence + oracle on real output",
 }
 
